@@ -251,6 +251,7 @@ func runC19(c *Ctx) {
 	}
 	// padded hash-map keys are zeroed as a whole on the kernel side (the control plane's keys have zero padding)
 	c.runCRules("C19", nil)
+	keyFromAs16(c, "KEY")
 	sizes := types.SizesFor("gc", "amd64")
 	stub := c.P.Pkg("control")
 	pairs := mirrorPairs(cf, stub.Types)
